@@ -23,6 +23,7 @@ type Sink struct {
 	FailAt   int    // index of the Write call that fails (-1 none)
 	Forever  bool   // keep failing afterwards
 	Partial  bool   // the failing call accepts half of its bytes first
+	Full     bool   // the failing call accepts all of its bytes and still returns the error
 	Hit      int    // number of times the fault fired
 	Yield    func() // called on every Write (C14)
 	ByteHits int
@@ -42,6 +43,12 @@ func (s *Sink) Write(p []byte) (int, error) {
 	if s.FailAt >= 0 && (idx == s.FailAt || (s.Forever && idx > s.FailAt)) {
 		s.Hit++
 		n := 0
+		if s.Full {
+			// legal for an io.Writer: (len(p), err), e.g. when a trailer or flush that belongs to
+			// the call fails after the payload went out
+			s.Buf = append(s.Buf, p...)
+			return len(p), ErrInjected
+		}
 		if s.Partial && len(p) > 1 {
 			n = len(p) / 2
 			s.Buf = append(s.Buf, p[:n]...)
